@@ -6,6 +6,7 @@
 -/
 import BloomVerif.Lemmas.Format
 import BloomVerif.Bridge.Scanner
+import BloomVerif.Bridge.ScannerList
 namespace BloomVerif.C19
 open BloomVerif
 
@@ -129,6 +130,29 @@ example : Gen.BlockRowScanner_Next 10 0 (fun _ => 6) = .row 4 10 10 ∧ Gen.Bloc
       lo = 0 + 4 ∧ hi = lo + 6 ∧ hi ≤ 10 ∧ p' = hi ∧ 0 < p') :=
   ⟨by decide, by decide, by decide, by decide,
    scanner_generated_in_bounds 10 0 (fun _ => 6) (by decide) (by decide) (by decide) (by decide) (by decide)⟩
+
+/-- The regenerated step is the step of the byte-list model: for any section that fits an int and any cursor in
+    it, one unfolding of `scanRows` (which `scanner_in_bounds` here and the round-trip theorems of C17 are about)
+    is exactly what the regenerated `BlockRowScanner.Next` does at that cursor - same end, same errors, same
+    row, same next cursor. -/
+theorem scanner_generated_is_model (fuel : Nat) (data : Bytes) (pos : Nat) (hp : pos ≤ data.length)
+    (hn : (data.length : Int) ≤ 9223372036854775807) :
+    scanRows (fuel + 1) (data.drop pos) =
+      match Gen.BlockRowScanner_Next data.length pos (fun o => Bridge.wordAt data o.toNat) with
+      | .done => .ok []
+      | .err => .error (if data.length - pos < 4 then .truncatedPrefix else .lengthExceeds)
+      | .row lo hi p' =>
+        (match scanRows fuel (data.drop p'.toNat) with
+         | .ok rs => .ok (((data.drop lo.toNat).take (hi - lo).toNat) :: rs)
+         | .error e => .error e)
+      | .panic => .error .truncatedPrefix :=
+  Bridge.scanRows_generated_step fuel data pos hp hn
+
+/-- non-vacuity: the section written for two rows, scanned from the second row's prefix (cursor 5) -/
+example : scanRows 3 ((encodeRows [[7], [8, 9]]).drop 5) = .ok [[8, 9]] ∧
+    5 ≤ (encodeRows [[7], [8, 9]]).length ∧ ((encodeRows [[7], [8, 9]]).length : Int) ≤ 9223372036854775807 ∧
+    Gen.BlockRowScanner_Next (encodeRows [[7], [8, 9]]).length 5 (fun o => Bridge.wordAt (encodeRows [[7], [8, 9]]) o.toNat) = .row 9 11 11 := by
+  refine ⟨by rfl, by decide, by decide, by decide⟩
 
 end BloomVerif.C19
 
